@@ -374,3 +374,33 @@ def finish(res: Result, st: StageA, rule: str, level_note: list[str], obligation
 
 def rng_for(seed: int, tag: str) -> random.Random:
     return random.Random(f"{seed}:{tag}")
+
+
+# ---- parallel map with one model driver per worker process ----------------------------------------------
+_worker_driver = None
+
+
+def worker_driver() -> "Driver":
+    global _worker_driver
+    if _worker_driver is None:
+        _worker_driver = Driver()
+    return _worker_driver
+
+
+def _pmap_init():
+    ensure_repo_on_path()
+    import logging
+    logging.disable(logging.CRITICAL)
+
+
+def pmap(func, items, workers=None, chunk=64):
+    """order-preserving parallel map (fork); `func` may call worker_driver()"""
+    import multiprocessing as mp
+
+    workers = workers or min(16, os.cpu_count() or 4)
+    if len(items) < 2 * chunk or workers <= 1:
+        _pmap_init()
+        return [func(x) for x in items]
+    ctx = mp.get_context("fork")
+    with ctx.Pool(workers, initializer=_pmap_init) as pool:
+        return pool.map(func, items, chunksize=chunk)
